@@ -185,6 +185,27 @@ def audit(prop_modules, extra_modules=()):
     return dict(obligations=len(thms), discharged=discharged, problems=problems, theorems=thms)
 
 
+def failing_theorems(log):
+    """Names of the theorems / definitions enclosing the error positions of a lake build log."""
+    out = []
+    for m in re.finditer(r"error: (SkaModel/[\w/]+\.lean):(\d+):\d+", log):
+        path, line = os.path.join(LEAN, m.group(1)), int(m.group(2))
+        try:
+            src = open(path).read().splitlines()
+        except OSError:
+            continue
+        name = None
+        for k in range(min(line, len(src)) - 1, -1, -1):
+            mm = re.match(r"\s*(?:private\s+)?(?:theorem|lemma|def|instance)\s+([^\s:({\[]+)", src[k])
+            if mm:
+                name = mm.group(1)
+                break
+        tag = f"{name} ({m.group(1)}:{line})" if name else f"{m.group(1)}:{line}"
+        if tag not in out and not any(t.startswith((name or '?') + " ") for t in out):
+            out.append(tag)
+    return out[:8]
+
+
 def run_driver(lines, timeout=600, exe=None):
     """Pipe the case lines to the compiled model driver; one output line per input line."""
     if not lines:
@@ -324,6 +345,9 @@ def run_check(prop, module, tier, seed):
                     prop_mods += [t for t in gen_targets if t.startswith("SkaModel.")]
                 else:
                     errs = [l for l in br2.log.splitlines() if "error" in l][:6]
+                    failing = failing_theorems(br2.log)
+                    if failing:
+                        errs = ["theorems that no longer check: " + ", ".join(failing)] + errs[:3]
                     ctx.broken.append("the theorems about the model generated from the current source no longer check "
                                       "(lake build " + " ".join(gen_targets) + "): " + " | ".join(errs))
             aud = audit(prop_mods)
